@@ -60,6 +60,55 @@ def nArgsF : List Tree → Nat
   | t :: ts => nArgs t + nArgsF ts
 end
 
+/-! ## Failing nested calls
+
+Callbacks of any behaviour at any depth. A body first runs (its inner constructor calls, in order), then
+its result is validated; a failure anywhere — a non-callable or malformed inner callback, an inner
+callback that raises — propagates out of every enclosing body and constructor unchanged and stops
+everything that would have followed. -/
+
+inductive TreeE
+  | node (cb : Nat) (types : List Ty) (beh : CbBehaviour) (children : List TreeE)
+deriving Repr, Inhabited
+
+mutual
+def runTreeE : TreeE → World → Option Err × World
+  | .node cb types beh children, w =>
+    if beh.callable then
+      match runForestE children
+          { events := ⟨cb, freshIds w.fresh types.length, types⟩ :: w.events, fresh := w.fresh + types.length } with
+      | (some e, w2) => (some e, w2)
+      | (none, w2) =>
+        match beh.result with
+        | .ok _ => (none, w2)
+        | .error e => (some e, w2)
+    else (some .typeError, { w with fresh := w.fresh + types.length })
+def runForestE : List TreeE → World → Option Err × World
+  | [], w => (none, w)
+  | t :: ts, w =>
+    match runTreeE t w with
+    | (some e, w1) => (some e, w1)
+    | (none, w1) => runForestE ts w1
+end
+
+mutual
+def idsE : TreeE → List Nat
+  | .node cb _ _ children => cb :: idsFE children
+def idsFE : List TreeE → List Nat
+  | [] => []
+  | t :: ts => idsE t ++ idsFE ts
+end
+
+mutual
+/-- forget the behaviours: the tree of a successful run -/
+def erase : TreeE → Tree
+  | .node cb types beh children =>
+    .node cb types (match beh.result with | .ok n => n | .error _ => 0) (eraseF children)
+def eraseF : List TreeE → List Tree
+  | [] => []
+  | t :: ts => erase t :: eraseF ts
+end
+
 /-- A callback without inner control flow. -/
 def leaf (cb : Nat) (types : List Ty) (n : Nat) : Tree := .node cb types n []
 
